@@ -1,4 +1,5 @@
 import Proofs.Lemmas.SerRT
+import Proofs.Lemmas.SerFuel
 /-! Array reconstruction and the mutual round-trip induction. -/
 namespace Proofs.Ser
 open Model.Ser
@@ -96,7 +97,8 @@ theorem pValue_arr (n : Nat) (hn : n ≤ maxInt) (body rest : Bytes) (fuel : Nat
       97 :: 58 :: (dec n ++ 58 :: 123 :: (body ++ 125 :: rest)) := by simp
   rw [this, pValue]
   simp only [show ¬ (97 : Nat) = 78 by decide, show ¬ (97 : Nat) = 98 by decide,
-    show ¬ (97 : Nat) = 105 by decide, show ¬ (97 : Nat) = 115 by decide, if_false, if_true]
+    show ¬ (97 : Nat) = 105 by decide, show ¬ (97 : Nat) = 115 by decide,
+    show ¬ (97 : Nat) = 100 by decide, if_false, if_true]
   rw [pArrHead_ser n hn]
   rfl
 
@@ -132,7 +134,11 @@ theorem rtV : (v : PV) → CanonV v → ∀ bs, ser v = some bs → ∀ fuel res
     cases fuel with
     | zero => simp at hf
     | succ f => exact pValue_str s rest hc f
-  | .float, hc, _, _, _, _, _ => by simp [CanonV] at hc
+  | .float r, hc, bs, hs, fuel, rest, hf => by
+    simp only [ser, Option.some.injEq] at hs; subst hs
+    cases fuel with
+    | zero => simp at hf
+    | succ f => exact pValue_float r rest hc.1 hc.2 f
   | .arr items, hc, bs, hs, fuel, rest, hf => by
     obtain ⟨hci, hlen⟩ := hc
     simp only [ser] at hs
@@ -166,8 +172,9 @@ theorem rtItems : (l : PL) → CanonItems l → ∀ idx bs, idx + l.len ≤ maxI
     simp only [serItems, Option.some.injEq] at hs; subst hs
     simp [PL.len, pEntries, itemEntries]
   | .cons k v tl, hc, idx, bs, hidx, hs, fuel, rest, hf => by
-    obtain ⟨_, hcv, hct⟩ := hc
-    simp only [serItems] at hs
+    obtain ⟨hk0, hcv, hct⟩ := hc
+    subst hk0
+    simp only [serItems, slotKey, if_true] at hs
     obtain ⟨x, y, z, hx, hy, hz, hbs⟩ := cat3_some hs
     simp only [Option.some.injEq] at hx
     subst hx hbs
@@ -184,7 +191,7 @@ theorem rtItems : (l : PL) → CanonItems l → ∀ idx bs, idx + l.len ≤ maxI
         have := pValue_int (idx : Int) (by omega) (by unfold maxInt at hidx; omega) (y ++ z ++ rest) f'
         rw [hi] at this
         simpa [List.append_assoc] using this
-      rw [h1]
+      rw [h1, keyFilter_of_ok (by rfl)]
       simp only
       have h2 := rtV v hcv y hy (f' + 1) (z ++ rest) (by simp [List.length_append] at hf ⊢; omega)
       rw [List.append_assoc y z rest, h2]
@@ -214,7 +221,8 @@ theorem rtProps : (l : PL) → CanonProps l → ∀ bs, serProps l = some bs →
       | succ f' =>
         have h1 : pValue (f' + 1) (serStr k ++ (y ++ z ++ rest)) = some (.str k, y ++ z ++ rest) :=
           pValue_str k _ hk f'
-        rw [show serStr k ++ y ++ z ++ rest = serStr k ++ (y ++ z ++ rest) by simp [List.append_assoc], h1]
+        rw [show serStr k ++ y ++ z ++ rest = serStr k ++ (y ++ z ++ rest) by simp [List.append_assoc], h1,
+          keyFilter_of_ok (by rfl)]
         simp only
         have h2 := rtV v hcv y hy (f' + 1) (z ++ rest) (by simp [List.length_append] at hf ⊢; omega)
         rw [List.append_assoc y z rest, h2]
